@@ -138,8 +138,23 @@ let eval_st (ops : string) : string =
    with Exit -> ());
   String.concat "+" (List.rev !out)
 
+(* ---------- CD: decoding of configuration-change payloads ---------- *)
+
+let cct_int = function CCAddNode -> "0" | CCRemoveNode -> "1" | CCUpdateNode -> "2" | CCAddLearnerNode -> "3" | CCUnknown -> "?"
+
+let eval_cd (typ : string) (hex : string) : string =
+  let e = { e_term = N0; e_index = N0; e_type = (if typ = "V" then EntryConfChangeV2 else EntryConfChange);
+            e_has_type = true; e_data = bytes_of_hex hex; e_has_data = hex <> "-"; e_leave = false } in
+  match decode_cc e with
+  | None -> "ERR"
+  | Some cc ->
+    let tr = match cc.cc_transition_ with TransAuto -> "0" | TransJointImplicit -> "1" | TransJointExplicit -> "2" in
+    let chs = list_or "," (List.map (fun c -> cct_int c.ccs_type ^ "." ^ sn c.ccs_node) cc.cc_changes) in
+    tr ^ ";" ^ chs
+
 let eval (t : string) (f : string array) : string * string * bool =
   match t with
+  | "CD" -> (eval_cd f.(1) f.(2), f.(3), true)
   | "CC" -> (eval_cc f.(1), f.(2), true)
   | "IF" -> (eval_if f.(1) f.(2) f.(3), f.(4), true)
   | "ST" -> (eval_st f.(1), f.(2), true)
